@@ -1,4 +1,5 @@
 """Engine Z driver (generated benchmark crate run as a black box). Filled in later."""
+from common import Machinery
 
 
 def setup(chk):
@@ -6,8 +7,8 @@ def setup(chk):
 
 
 def run(job, tier, seed, chk):
-    raise chk.Machinery("engine Z not built yet")
+    raise Machinery("engine Z not built yet")
 
 
 def replay(body, chk):
-    raise chk.Machinery("engine Z not built yet")
+    raise Machinery("engine Z not built yet")
